@@ -242,7 +242,9 @@ def ifmToFuse (fi : FuseInfo) : Option (Option Tensor) :=
     match fi.ifm with
     | none => none
     | some ifm =>
-      if !(shouldIgnore ifm || shouldIgnore fi.ofm || ifm.consumers > 1) then some (some ifm) else some none
+      -- `or ifm.ifm_write_protected` (repair C01-27): a Memcpy does not share the memory of a write protected input
+      if !(shouldIgnore ifm || shouldIgnore fi.ofm || ifm.consumers > 1 || ifm.writeProtected) then some (some ifm)
+      else some none
   else some none
 
 /-- `merge_elementwise_op_ranges` -/
